@@ -721,20 +721,34 @@ func (e *Engine) smtFile(vc *VC, o *Obligation, withModel bool) string {
 		sb.WriteString(d)
 		sb.WriteByte('\n')
 	}
-	for _, d := range e.smtDefs {
-		if d.Scope == "lemma" && !vc.isLemma {
-			continue
-		}
-		if d.Scope == "func" && vc.isLemma {
-			continue
-		}
-		if d.Mode == "all" || d.Mode == vc.ar.Mode.String() {
-			t := substSorts(d.Text, vc.ar.Mode)
-			if strings.HasPrefix(t, "(declare-ghost") {
+	// declarations of all contract files first (a definition in one package may use a symbol
+	// declared in another), then definitions, then assertions; file order within each class
+	for pass := 0; pass < 3; pass++ {
+		for _, d := range e.smtDefs {
+			if d.Scope == "lemma" && !vc.isLemma {
 				continue
 			}
-			sb.WriteString(t)
-			sb.WriteByte('\n')
+			if d.Scope == "func" && vc.isLemma {
+				continue
+			}
+			if d.Mode == "all" || d.Mode == vc.ar.Mode.String() {
+				t := substSorts(d.Text, vc.ar.Mode)
+				if strings.HasPrefix(t, "(declare-ghost") {
+					continue
+				}
+				class := 1
+				switch {
+				case strings.HasPrefix(t, "(declare-"):
+					class = 0
+				case strings.HasPrefix(t, "(assert"):
+					class = 2
+				}
+				if class != pass {
+					continue
+				}
+				sb.WriteString(t)
+				sb.WriteByte('\n')
+			}
 		}
 	}
 	for _, d := range vc.decls[nBuiltin:] {
